@@ -262,3 +262,32 @@ M('merge_params_channels_max', ['C12'], 'phylib/io/merge.py',
   "        n_channels_dat = sum(params['n_channels_dat'] for params in params_l)", "        n_channels_dat = sum(params['n_channels_dat'] for params in params_l[:3])")
 M('merge_similar_not_blockdiag', ['C12'], 'phylib/io/merge.py',
   "                concat = block_diag(*_load_multiple_files(fn, self.subdirs))", "                concat = block_diag(*_load_multiple_files(fn, self.subdirs)[::-1 if fn.startswith('similar') else 1])")
+# ---- C13 / C14 --------------------------------------------------------------------------------
+M('alf_times_in_samples', ['C13'], 'phylib/io/alf.py',
+  "        self._save_npy('spikes.times.npy', self.model.spike_times)", "        self._save_npy('spikes.times.npy', self.model.spike_times * (self.model.sample_rate if self.model.sample_rate < 1 else 1))")
+M('alf_label_some_globs', ['C13'], 'phylib/io/alf.py',
+  "        glob_patterns = ['channels.*', 'clusters.*', 'spikes.*', 'templates.*']", "        glob_patterns = ['channels.*', 'clusters.*', 'spikes.*', 'templates.w*']")
+M('alf_same_dir_guard_str', ['C13'], 'phylib/io/alf.py',
+  "        if self.out_path.resolve() == self.dir_path.resolve():", "        if str(out_path) == str(self.dir_path) + '/':")
+M('alf_cluster_table_by_templates', ['C13'], 'phylib/io/alf.py',
+  "        uuid_list.extend([str(uuid.uuid4()) for _ in range(camps.size)])", "        uuid_list.extend([str(uuid.uuid4()) for _ in range(self.model.n_templates)])")
+M('alf_copies_into_source', ['C13'], 'phylib/io/alf.py',
+  "        np.save(self.out_path / filename, arr.astype(dtype))", "        np.save((self.out_path if 'depths' not in filename else self.dir_path) / filename, arr.astype(dtype))")
+M('alf_uuid_reused', ['C13'], 'phylib/io/alf.py',
+  "        uuid_list.extend([str(uuid.uuid4()) for _ in range(camps.size)])", "        u0 = str(uuid.uuid4())\n        uuid_list.extend([u0 if i > 5 else str(uuid.uuid4()) for i in range(camps.size)])")
+M('alf_wm_for_wmi', ['C14'], 'phylib/io/model.py',
+  "            templates_wfs[n, :, :] = np.matmul(sparse.data[n, :, :], self.wmi)", "            templates_wfs[n, :, :] = np.matmul(sparse.data[n, :, :], self.wmi if use != 'clusters' else self.wm)")
+M('alf_channels_other_probe', ['C14'], 'phylib/io/alf.py',
+  "                channel_distance[self.model.channel_probes != current_probe] += np.inf\n                templates_inds[t, :] = np.argsort(channel_distance)[:ncw]\n                templates[t, ...] = templates_v[t, :][:, templates_inds[t, :]]",
+  "                templates_inds[t, :] = np.argsort(channel_distance)[:ncw]\n                templates[t, ...] = templates_v[t, :][:, templates_inds[t, :]]")
+M('alf_depth_from_x', ['C14'], 'phylib/io/alf.py',
+  "        clusters_depths = channel_positions[cluster_channels, 1]", "        clusters_depths = channel_positions[cluster_channels, 1 if len(cluster_channels) < 6 else 0]")
+M('alf_amps_without_factor', ['C14'], 'phylib/io/alf.py',
+  "            np.save(self.out_path.joinpath('clusters.amps'), cluster_amps)", "            np.save(self.out_path.joinpath('clusters.amps'), cluster_amps / self.ampfactor)")
+M('alf_rawind_offset_twice', ['C14'], 'phylib/io/alf.py',
+  "            channel_offset = np.max(self.model.channel_mapping[ind])", "            channel_offset += np.max(self.model.channel_mapping[ind]) - channel_offset * (probe < 2)")
+M('alf_cluster_waveform_channels_l2', ['C14'], 'phylib/io/alf.py',
+  "                channel_distance = np.sum(np.abs(\n                    self.model.channel_positions -\n                    self.model.channel_positions[channels[t]]), axis=1)",
+  "                channel_distance = np.sum(np.abs(\n                    self.model.channel_positions -\n                    self.model.channel_positions[channels[t]]) ** 2, axis=1)")
+M('alf_spike_depths_cluster_when_features', ['C14'], 'phylib/io/alf.py',
+  "        if self.model.sparse_features is None:\n            spikes_depths = clusters_depths[spike_clusters]", "        if self.model.sparse_features is None or self.model.sparse_features.cols is None:\n            spikes_depths = clusters_depths[spike_clusters]")
